@@ -2,7 +2,7 @@
 
 Explicit-state search over operation histories on the real process-global state (the engine cache of
 merchant_utils, the expression and regex caches of expr_parser, per-engine caches).  A state is the
-history that reaches it.  For every history h of length <= D over 21 operations (8 loads incl. a
+history that reaches it.  For every history h of length <= D over 23 operations (8 loads incl. a
 reload that rewrites a file on disk, 5 classifications, 2 engine matches, 4 expression evaluations) the
 worker forks a child that replays h on the real code from the pristine import-time state; the child then
 forks one grandchild per observation operation o, which executes o in the state reached by h.  Invariant
@@ -26,7 +26,7 @@ from mc.core import harness as H
 
 PROPERTY = "C07"
 LEVEL = "model_checking"
-RULE = ("states = operation histories (no merging: a state is its history) of length 0..D (D=3 quick, 4 thorough) over 21 operations; "
+RULE = ("states = operation histories (no merging: a state is its history) of length 0..D (D=3 quick, 4 thorough) over 23 operations; "
         "transitions = (history, observation) pairs, every one executed on the real code in a process forked from the state the history reached; "
         "reference = the same observation in a fresh process after only the most recent load")
 ASSUMPTIONS = ["a process forked from the harness worker (tally imported, nothing loaded or evaluated) is the 'fresh process' reference",
@@ -52,6 +52,7 @@ match: contains("NETFLIX")
 category: Subs
 subcategory: Streaming
 tags: a, {field.type}
+field: seen = "yes"
 
 [Ordered]
 match: any(r.amount == amount for r in orders)
@@ -110,12 +111,15 @@ ORDERS = {"orders": [{"item": "Book", "amount": 99.75, "date": dt.date(2025, 3, 
 EXPRS = ['regex("^\\\\d+$")', 'regex("^\\\\D+$")', 'description.replace("a", "b") + extract("^(\\\\d+)$")',
          'description.replace("A", "b") + extract("^(\\\\D+)$")',
          # binds a name with := ; the next one reads that name without binding it (unknown in a fresh process)
-         '(ref := extract("^(\\\\d+)$")) != "" and ref == "12345"', 'ref != "zzz"']
+         '(ref := extract("^(\\\\d+)$")) != "" and ref == "12345"', 'ref != "zzz"',
+         # the same text / pattern pair judged against two thresholds (a cached similarity must not depend on who asked first)
+         'fuzzy("STARBUCKS", 0.6)', 'fuzzy("STARBUCKS", 0.95)']
+FUZZY_TEXT = "STARBUKCS GIFT RELOAD AT STARBUCKS 04521 SEATTLE WA"
 
 LOADS = [("load", "A.rules", "first_match"), ("load", "A.rules", "most_specific"), ("load", "B.rules", "first_match"),
          ("load", "C.csv", "first_match"), ("load", "D.csv", "first_match"), ("load", "bad.rules", "first_match"),
          ("load", None, "first_match"), ("reload", "A.rules", "first_match")]
-OBS = [("classify", i) for i in range(5)] + [("match", 0), ("match", 2)] + [("eval", i) for i in range(6)]
+OBS = [("classify", i) for i in range(5)] + [("match", 0), ("match", 2)] + [("eval", i) for i in range(8)]
 OPS = LOADS + OBS
 
 
@@ -196,7 +200,7 @@ def do_op(w, op):
         return obs
     if kind == "eval":
         res = []
-        for t in (TXNS[2], TXNS[4]):
+        for t in (TXNS[2], TXNS[4], {"description": FUZZY_TEXT, "amount": 1.0}):
             txn = {"description": t["description"], "amount": t["amount"]}
             try:
                 res.append(repr(evaluate_transaction(EXPRS[op[1]], txn)))
